@@ -1,7 +1,7 @@
 SPECIFICATION SpecD
 CONSTANTS
   N = 3
-  Names = {"refs/heads/a", "refs/heads/b"}
+  Names = {"refs/heads/a", "refs/tags/t", "HEAD"}
   MaxPacks = 3
   MaxLen = 6
 INVARIANT ReachablePreserved
